@@ -422,13 +422,39 @@ pub fn id_pairs(prop: &'static str) -> Space {
 pub fn soak(prop: &'static str) -> Space {
     Space::new(
         "ASM-SOAK",
-        "8 cyclic scripts x 600 lines (complete / abandoned groups, unfragmented sentences, checksum / grammar / sequencing / decode errors) x decode phase",
-        8 * 2,
+        "8 cyclic scripts x 600 lines (complete / abandoned groups, unfragmented sentences, checksum / grammar / sequencing / decode errors) x decode phase; plus 6 burst scripts: 300 consecutive rejected lines (4 kinds rotating, or one kind) / unfragmented sentences between the fragments of an open group",
+        8 * 2 + 6 * 2,
         move |i, l| {
             let script = i / 2;
             let phase = i % 2 == 1;
             let t1 = type1_payload();
             let mut lines: Vec<(Vec<u8>, bool)> = Vec::new();
+            if script >= 8 {
+                // burst scripts
+                let kind = script - 8;
+                let id: &[u8] = if phase { b"6" } else { b"" };
+                let other: &[u8] = if phase { b"7" } else { b"8" };
+                lines.push((sentence(3, 1, id, b"b1", 0), false));
+                for j in 0..300u32 {
+                    let which = if kind == 0 { j % 4 } else { (kind - 1) as u32 };
+                    let line = match which {
+                        0 => {
+                            let m = Mk::new(3, 2, id, b"b2", 0);
+                            let wrong = format!("*{:02X}", m.xor() ^ 0x08);
+                            m.render_with(wrong.as_bytes())
+                        }
+                        1 => b"!AIVDM,garbage,,".to_vec(),
+                        2 => sentence(3, 3, other, b"zz", 0),
+                        3 => sentence(2, 2, id, b"", 0), // empty payload: malformed
+                        _ => sentence(1, 1, b"", &t1, 0),
+                    };
+                    lines.push((line, kind == 5 && j % 2 == 0));
+                }
+                lines.push((sentence(3, 2, id, b"b2", 0), false));
+                lines.push((sentence(3, 3, id, b"b3", 0), false));
+                run_with_monitor(l, prop, &lines);
+                return;
+            }
             let mut g = 0u32;
             while lines.len() < 600 {
                 g += 1;
